@@ -501,3 +501,85 @@ def _concrete_incdirs(real, files, vals, target):
     finally:
         os.chdir(old)
         shutil.rmtree(root, ignore_errors=True)
+
+
+def hashseed_task(tname):
+    """fresh processes under different PYTHONHASHSEED values: every path witness of the symbolic
+    include-tree exploration (which files exist where, working directory, -i, operand) is replayed on
+    the pristine code in four processes with different hash seeds; the results must be identical"""
+    import json as _json
+    import subprocess
+    import tempfile
+    from symx import vfs as vfsmod
+    from . import include
+    res = TaskResult('hashseed:%s' % tname)
+    tree = include.TREES[tname]
+    asm = asmshim.load_asm_shimmed()
+    roles = [r for r, (pth, lines) in tree['cands'].items() if lines is not None]
+    x = core.Explorer()
+    jobs = []
+
+    def fn(p):
+        import posixpath
+        K = p.int('K0', 14)
+        v = vfsmod.VFS('/proj/run')
+        for d in include.CWDS + ['/proj/inc']:
+            v.add_dir(d)
+        for pth, lines in tree['fixed'].items():
+            v.add_text(pth, '\n'.join(lines))
+        ex = {}
+        for r in roles:
+            pth, lines = tree['cands'][r]
+            ex[r] = p.bool('exists_' + r)
+            v.add_text(posixpath.normpath(pth), '\n'.join(lines), exists=ex[r])
+        use_i = p.bool('use_i')
+        v.install(asm)
+        Markers.table = {}
+        p.notes.update(ex=ex, use_i=use_i, K=K)
+        return asm.assemble(tree['main'], constants={'K0': K}, labels={}, include_dirs=[tree['idir']] if use_i else [])
+
+    for p, kind, val in x.run(fn):
+        if kind == 'limit':
+            res.inconc('hashseed %s: %s' % (tname, val))
+            continue
+        m = p.witness()
+        exv = {r: core.concrete(b, m) for r, b in p.notes['ex'].items()}
+        # every candidate the path did not look at may exist or not: take both extremes
+        for fill in (exv, {r: True for r in exv}):
+            jobs.append(dict(tree=tname, exists=fill, cwd='/proj/run', idirs=[tree['idir']] if core.concrete(p.notes['use_i'], m) else [],
+                             K=core.concrete(p.notes['K'], m)))
+    res.absorb_stats(x.stats)
+    uniq = []
+    for j in jobs:
+        if j not in uniq:
+            uniq.append(j)
+    jf = tempfile.NamedTemporaryFile('w', suffix='.json', delete=False)
+    _json.dump(uniq, jf)
+    jf.close()
+    worker = __import__('os').path.join(common.VERIF, 'tools', 'hs_worker.py')
+    results = {}
+    try:
+        for seed in ('0', '1', '2', '12345'):
+            env = dict(__import__('os').environ, PYTHONHASHSEED=seed, VERIF_REPO=common.REPO)
+            pr = subprocess.run([__import__('sys').executable, worker, jf.name], capture_output=True, text=True, env=env, timeout=600)
+            if pr.returncode != 0:
+                res.inconc('hashseed worker failed under seed %s: %s' % (seed, pr.stderr[-300:]))
+                continue
+            results[seed] = _json.loads(pr.stdout.strip().splitlines()[-1])
+    finally:
+        __import__('os').unlink(jf.name)
+    seeds = sorted(results)
+    for i, j in enumerate(uniq):
+        outs = {s: results[s][i] for s in seeds}
+        ok = len({_json.dumps(o) for o in outs.values()}) == 1
+        res['validated'] += len(seeds)
+        if not ok:
+            path = common.write_replay('C16', 'hashseed_%s_%d' % (tname, i), dict(kind='hashseed', property='C16', setting=j, results=outs,
+                                                                                  what='result depends on PYTHONHASHSEED'))
+            res['violations'].append(dict(harness='hashseed', kind='hash-seed-dependent', setting=j,
+                                          results={s: o[:2] for s, o in outs.items()}, replay=path))
+        res.oblig(ok)
+    res['samples'].append(dict(tree=tname, settings=len(uniq), hash_seeds=seeds))
+    if not uniq:
+        res['vacuity'].append('hashseed %s: no setting' % tname)
+    return res
